@@ -91,6 +91,10 @@ class RefEncoder:
             return v
         if tv in (bytes, bytearray):
             return base64.b64encode(bytes(v)).decode()
+        if isinstance(v, type):
+            # a class object is a value like any other the encoding table does not name: written as its str(), whatever the
+            # class is (a dataclass *type* is not a dataclass instance)
+            return str(v)
         if isinstance(v, enum.Enum):
             return v.value
         if isinstance(v, uuid.UUID):
